@@ -645,10 +645,15 @@ class ViewRepresentation(OperatorPlatform, abc.ABC):
                 ((partition_by == 1) or (len(partition_by) <= 0))
                 and ((self.partition_by == 1) or (len(self.partition_by) <= 0))
             )
-            same_windowing = (
+            # the new step is windowed when it uses a window function, or names a partition (1 included)
+            # or an ordering: the same rule ExtendNode.__init__ applies
+            new_windowed_situation = (
                 data_algebra.expr_rep.implies_windowed(parsed_ops)
-                == self.windowed_situation
+                or (partition_by == 1)
+                or (len(partition_by) > 0)
+                or (len(order_by) > 0)
             )
+            same_windowing = new_windowed_situation == self.windowed_situation
             if (
                 compatible_partition
                 and same_windowing
